@@ -442,6 +442,11 @@ func genC16(t *rapid.T) c16Case {
 	}
 	withTokens := rapid.Bool().Draw(t, "tokens")
 	bare := rapid.IntRange(0, 7).Draw(t, "bare") == 0 // a block of the smallest transactions there are (no inputs, no outputs: 10 bytes each)
+	if n >= 10 && rapid.IntRange(0, 7).Draw(t, "thousands") == 0 {
+		// thousands of transactions, as real blocks have: counts on and around the powers of two where a size class may change
+		n = rapid.SampledFrom([]int{511, 512, 513, 1023, 1024, 1025, 2047, 2048, 2049, 3000, 4095, 4096, 4097, 8193, 10000}).Draw(t, "nthousands")
+		bare = true
+	}
 	for i := 0; i < n; i++ {
 		if bare {
 			c.Txs = append(c.Txs, c16TxSpec{})
